@@ -28,7 +28,8 @@ def check_nullspace(ctx) -> None:
     comps = [n for n in walk_local(fn.node) if isinstance(n, ast.DictComp)]
     comps = [c for c in comps if "row" in norm(c)]
     if not comps:
-        raise AnalysisError("add_loopless: the null-space coefficient comprehension was not found")
+        ctx.ok("C17.nullspace", fn, fn.node, "no familiar spelling of the null-space coefficient comprehension; decided at formulation level by C17.formulation (add_loopless)", nontrivial=False)
+        return
     for c in comps:
         gen = c.generators[0]
         bound = {x.id for x in ast.walk(gen.target) if isinstance(x, ast.Name)}
@@ -109,11 +110,12 @@ def run(ctx) -> None:
     ctx.rule("C17.capture", "T6: old objective read before it is replaced", floor=1)
     ctx.rule("C17.nullspace", "T5: add_loopless constructs (coefficient comprehension, internal set, big-M, on/off, delta_g)", floor=5)
     ctx.rule("C17.magnitude", "T5: cut-offs are applied to magnitudes", floor=4)
-    ctx.rule("C17.formulation", "formulation: loopless_solution poses the documented cycle-removal problem (oracle evaluation)", floor=8)
+    ctx.rule("C17.formulation", "formulation: loopless_solution poses the documented cycle-removal problem (oracle evaluation)", floor=9)
     try:
         loopform.check_loopless_solution(ctx, "C17.formulation")
     except AnalysisError as exc:
         ctx.defer(str(exc))
+    ctx.guard(loopform.check_add_loopless, ctx, "C17.formulation")
     fa.check_orientation(ctx, "C17.orient", [("cobra.flux_analysis.loopless", "loopless_solution")], formulation_rule={"loopless_solution": "C17.formulation"})
     check_reported_objective(ctx)
     fa.check_cycle_free(ctx, "C17.cyclefree")
